@@ -108,6 +108,7 @@ fixed(['C08', 'C02', 'C01'], '1b7c70a', 'the simplifier compared the objective o
 fixed(['C01', 'C08', 'C02'], '5132c2b', 'trivialHeuristic()/propagatePseudoobj() of the simplifier used the objective offset with the sign of the LP sense in maximization-form sums; after a multi-aggregation changed the offset a feasible minimization LP was reported INFEASIBLE by default SoPlex (findings/C01_default_infeasible_multiaggregation_offset.cpp; C01 complete.INFEASIBLE:{}+needs{simplifier})')
 fixed(['C08'], '6b111dc', 'MultiAggregationPS added obj*const/a to the objective offset with the coefficient of the minimization form: for a maximization LP reduced optimum + getObjoffset() != original optimum (C08 objoffset.(okay|vanished):{...MultiAggregation...}; a known finding until the last hours)')
 fixed(['C08'], '40774d1', 'removeEmpty() fixed an empty column at a bound although a row singleton had made its bounds contradictory: the simplifier "solved" an infeasible LP outright (VANISHED), e.g. min -4y s.t. 8x-9y=-8, 4x-6y>=9, x>=2, y>=0 (findings/C08_vanished_infeasible.lp; C08 verdict.VANISHED:{}; a known finding until the last hours)')
+fixed(['C08', 'C01', 'C09'], '5c435cd', 'AggregationPS::execute() swapped the basis status to the aggregated variable without moving the dual of the aggregated row (postsolved r != c - A^T y; C08 postsolve.redcost.*:{...Aggregation...}, C01/C09 cert.redcost:{}+needs{simplifier}) and swapped whenever a FIXED variable had one differing bound, whatever the sign of its reduced cost (rcsign/compl-col, XMAISM exceptions); 52 of 58 violation events of a 6000-case C08 run; known findings until the last hours')
 
 # ------------------------------------------------------------------ open findings
 UND = r'(ABORT_CYCLING|RUNNING|UNKNOWN|ERROR|SINGULAR|NO_PROBLEM|NOT_INIT|OPTIMAL_UNSCALED_VIOLATIONS)'
@@ -115,8 +116,6 @@ UND = r'(ABORT_CYCLING|RUNNING|UNKNOWN|ERROR|SINGULAR|NO_PROBLEM|NOT_INIT|OPTIMA
 open_(SOLVE, r'(netlib\.)?(cert\.|reuse\.|resolve\.|.*\.resume\.|.*wrong-verdict|complete\.|.*harmless|basis\.|resolve-after|copy-|twins|dependent).*:\{.*solution_polishing=[12].*\}.*',
       'solution polishing (solution_polishing=1|2) returns OPTIMAL with slack != Ax, bound violations or a wrong status after its extra pivots', regex=True,
       repro='./vcheck C01 (any seed): keys C01:cert.slack:{...solution_polishing=...}')
-open_(['C01', 'C09'], r'(user\.)?cert\.redcost:\{[^}]*\}\+needs\{simplifier(,scaler)?\}',
-      'default configuration: reduced cost != c - A^T y after presolve (dual postsolve of an aggregation whose basis status was swapped; same root cause as the C08 Aggregation finding); x, slacks and objective are right', regex=True)
 open_(['C04', 'C06', 'C16', 'C14'], r'(reuse\.[a-z\-]+|resolve\.status|[a-z]+\.resume|objlimit\.harmless-changes-status|state\.resolve-status)\.' + UND + r':.*',
       'warm-started / resumed solves occasionally end undecided (ABORT_CYCLING, or RUNNING/UNKNOWN after an internal exception such as XLEAVE04) where a solve from scratch decides', regex=True)
 open_(['C06'], r'resolve\.(status\.[A-Z_]+|objective)\+nonbasic-free-row:.*',
@@ -165,8 +164,12 @@ open_(['C03', 'C04', 'C11'], r'.*lifting=1.*',
 open_(['C03'], r'objvalue.*:\{.*iterative_refinement=0.*\}.*',
       'pure precision boosting (iterative_refinement=0): objValueRational() is 0 / misses the offset (objective value not computed on that path)', regex=True)
 # --- presolve (stand-alone SPxMainSM)
-open_(['C08'], r'postsolve\.(redcost|rcsign|compl-col|compl-row|dualsign)\.(okay|vanished):\{[^}]*Aggregation[^}]*\}',
-      'AggregationPS/MultiAggregationPS: when the basis status is swapped to the aggregated variable the dual of the aggregated row is not recomputed (redcost != c - A^T y, wrong dual signs)', regex=True)
+open_(['C08'], r'postsolve\.(rcsign|compl-col|compl-row|dualsign)\.(okay|vanished):\{[^}]*Aggregation[^}]*DoubletonEquation[^}]*FreeColSingleton[^}]*\}',
+      'DoubletonEquationPS (singleton column combined with a doubleton equation, after FreeColSingleton) leaves the other column FIXED at its lower bound with a reduced cost of the wrong sign (degenerate vertex, all x = 0); the following AggregationPS hands that sign on to the aggregated variable (3x3 LP, keepbounds, presolve seed 498); stationarity r = c - A^T y holds', regex=True,
+      repro='findings/C08_doubleton_freecolsingleton_then_aggregation.lp')
+open_(['C08'], r'postsolve\.(rcsign|compl-col|compl-row|dualsign)\.(okay|vanished):\{[^}]*Aggregation[^}]*ForceConstraint[^}]*\}',
+      'ForceConstraintPS after an aggregation tightened a bound to 3.0000000000000004 next to the other bound 3: the column counts as "fixed by this row" (bounds compared with epsZero), its positive reduced cost is taken as a violation at the "upper" bound, the column is made basic and the forcing row gets a dual of the wrong sign (2x3 LP, keepbounds, presolve seed 167)', regex=True,
+      repro='findings/C08_forceconstraint_after_aggregation_ulp_bounds.mps')
 open_(['C08'], r'(postsolve\.(rcsign|compl-col|compl-row|dualsign|redcost)|basis\.(count|bound|singular))\.(okay|vanished):\{[^}]*TightenBounds[^}]*\}',
       'TightenBoundsPS: dual postsolve / basis status after bound tightening is incomplete (nonbasic at a bound the original LP does not have, wrong number of basic variables)', regex=True)
 open_(['C08'], r'basis\.(bound|singular|count)\.(okay|vanished):\{[^}]*\}',
@@ -174,9 +177,6 @@ open_(['C08'], r'basis\.(bound|singular|count)\.(okay|vanished):\{[^}]*\}',
 open_(['C08'], r'postsolve\.(rcsign|compl-col)\.(okay|vanished):\{[^}]*FreeColSingleton[^}]*RowSingleton[^}]*\}',
       'FreeColSingletonPS followed by RowSingletonPS: the reduced cost of a column whose bound was moved by the row singleton keeps a sign that is only valid for the tightened (finite) bound although the original bound is infinite', regex=True,
       repro='findings/C08_rcsign_freecolsingleton_rowsingleton.lp (keepbounds=true)')
-open_(['C08'], r'unsimplify\.exception\.(okay|vanished):\{[^}]*Aggregation[^}]*\}',
-      'unsimplify() throws XMAISM00 (its own basis dimension check fails) for some optimal vertices of the reduced LP when an Aggregation / DoubletonEquation step has to restore the basis status of the aggregated column (same family as the Aggregation dual postsolve finding)', regex=True,
-      repro='findings/C08_unsimplify_exception_aggregation.lp')
 open_(['C08'], r'postsolve\.(compl-row|dualsign|rcsign|compl-col)\.(okay|vanished):\{[^}]*RowSingleton[^}]*\}',
       'RowSingletonPS: the dual of a removed singleton row gets the wrong sign / is not complementary for a row that is one-sided in the original LP, or the reduced cost stays on the column although the bound it prices came from the singleton row and the original bound is infinite (minimal LP 4x4 with FixBounds, FixVariable, RowSingleton)', regex=True)
 # --- file I/O
